@@ -860,6 +860,18 @@ func (g *HistGen) genPages() {
 	g.ops = append(g.ops, op)
 }
 
+// illTypedForIndex: the item holds an index key attribute with another type than the index declares (the write is rejected)
+func illTypedForIndex(t *TableSpec, it Item) bool {
+	for _, ix := range append(append([]IndexSpec{}, t.GSI...), t.LSI...) {
+		for _, kv := range it {
+			if (string(kv.K) == ix.Hash[0] && kv.V.T != ix.Hash[1]) || (ix.Range != nil && string(kv.K) == ix.Range[0] && kv.V.T != ix.Range[1]) {
+				return true
+			}
+		}
+	}
+	return false
+}
+
 func hasEmptyKey(t *TableSpec, it Item) bool {
 	for _, kv := range it {
 		if (string(kv.K) == t.Hash[0] || (t.Range != nil && string(kv.K) == t.Range[0])) && len(kv.V.V) == 0 && (kv.V.T == "S" || kv.V.T == "N" || kv.V.T == "B") {
@@ -908,7 +920,7 @@ func (g *HistGen) genBatchWrite() {
 			// such a batch, so that the order is not observable
 			if g.r.Chance(60) {
 				it := g.genItemFor(t)
-				for nt > 1 && hasEmptyKey(t, it) {
+				for nt > 1 && (hasEmptyKey(t, it) || illTypedForIndex(t, it)) {
 					it = g.genItemFor(t)
 				}
 				tr.Reqs = append(tr.Reqs, WReq{Put: it})
